@@ -396,12 +396,14 @@ def run(run):
             nsyn += check_syntax_fault(run, texts, err_at, text, lines)
     # (iii) planted runtime faults
     nrt = 0
-    reps = 40 if quick else 1500
+    reps = 80 if quick else 1500
+    shared = Interpreter(True, False)         # one base environment; every case gets a fresh session scope
     for name, t in TEMPLATES:
         texts, roles = parse_template(t)
         for _ in range(reps):
             text, lines = layout(rng, texts)
-            nrt += check_runtime_fault(run, name, texts, roles, text, lines)
+            shared.environment = shared.base_environment.newEnv()
+            nrt += check_runtime_fault(run, name, texts, roles, text, lines, interp=shared)
     text, lines = layout(rng, parse_template(TEMPLATES[2][1])[0])
     run.sample({"template": TEMPLATES[2][0], "text": text, "token_lines": lines})
     nmod = module_faults(run, rng, 25 if quick else 600)
